@@ -51,6 +51,14 @@ pub enum IndexState {
     OtherDocuments,
     Missing,
     EmptyDir,
+    /// the index's own meta.json emptied
+    OwnMetaEmpty,
+    /// the index's own meta.json cut off in the middle
+    OwnMetaTruncated,
+    /// the index's own meta.json removed
+    OwnMetaMissing,
+    /// `.managed.json` replaced by garbage
+    ManagedGarbage,
 }
 
 #[derive(Clone, Debug, Serialize, Deserialize, PartialEq)]
@@ -316,6 +324,20 @@ fn prepare(dir: &Path, prior: &Prior) {
                     let _ = std::fs::remove_dir_all(&idx);
                     std::fs::create_dir_all(&idx).unwrap();
                 }
+                IndexState::OwnMetaEmpty => {
+                    let _ = std::fs::write(idx.join("meta.json"), b"");
+                }
+                IndexState::OwnMetaTruncated => {
+                    if let Ok(t) = std::fs::read(idx.join("meta.json")) {
+                        let _ = std::fs::write(idx.join("meta.json"), &t[..t.len() / 2]);
+                    }
+                }
+                IndexState::OwnMetaMissing => {
+                    let _ = std::fs::remove_file(idx.join("meta.json"));
+                }
+                IndexState::ManagedGarbage => {
+                    let _ = std::fs::write(idx.join(".managed.json"), b"\xff\xfe not json {{{");
+                }
             }
             let ver = r.meta["version"].clone();
             let hash = r.meta["database_hash"].clone();
@@ -367,7 +389,7 @@ fn all_combos(seed: u64) -> Vec<Prior> {
         MetaState::NullHash,
     ];
     let mut v = Vec::new();
-    for index in [IndexState::Complete, IndexState::OtherDocuments, IndexState::Missing, IndexState::EmptyDir] {
+    for index in [IndexState::Complete, IndexState::OtherDocuments, IndexState::Missing, IndexState::EmptyDir, IndexState::OwnMetaEmpty, IndexState::OwnMetaTruncated, IndexState::OwnMetaMissing, IndexState::ManagedGarbage] {
         for m in &metas {
             if index == IndexState::OtherDocuments && *m == MetaState::Current {
                 continue;
@@ -517,7 +539,7 @@ fn point(h: u64, n_docs: usize) -> String {
 }
 
 pub fn run_check(ctx: &Ctx) {
-    ctx.set_rule("fault histories = prior directory state (absent, complete, other version with current/stale hash, written by a neighbouring release (13 version strings next to the current one x index laid out with another tokenizer / other field names / not an index / other documents), other data over an index holding other documents, meta.json missing / truncated / garbage, index directory missing / empty) x crash point (hooks: index opened, after delete_all_documents, after the k-th add_document, before/after commit, after reload, between creating and writing meta.json, after writing it) x 1-3 follow-up starts (each crashing at another point or completing), every start a child process calling Db::open under a private XDG_DATA_HOME and aborting at the selected point; oracle: every completing start answers the query set (every unambiguous typable fact phrase plus not-found probes) exactly like a fresh in-memory database and leaves meta.json = {current version, current hash}; after a crash that leaves meta.json claiming `current`, the next start (which will not rebuild) must still answer correctly; non-trivial = a crash between the first document and the metadata write followed by a completing start; distinct by history");
+    ctx.set_rule("fault histories = prior directory state (absent, complete, other version with current/stale hash, written by a neighbouring release (13 version strings next to the current one x index laid out with another tokenizer / other field names / not an index / other documents), other data over an index holding other documents, meta.json missing / truncated / garbage, index directory missing / empty / with its own meta.json emptied, truncated or removed / with a garbage .managed.json) x crash point (hooks: index opened, after delete_all_documents, after the k-th add_document, before/after commit, after reload, between creating and writing meta.json, after writing it) x 1-3 follow-up starts (each crashing at another point or completing), every start a child process calling Db::open under a private XDG_DATA_HOME and aborting at the selected point; oracle: every completing start answers the query set (every unambiguous typable fact phrase plus not-found probes) exactly like a fresh in-memory database and leaves meta.json = {current version, current hash}; after a crash that leaves meta.json claiming `current`, the next start (which will not rebuild) must still answer correctly; non-trivial = a crash between the first document and the metadata write followed by a completing start; distinct by history");
     ctx.assume("a crash is a process abort at a hook point (files already written stay visible); torn writes inside a single write call are modelled only through truncated/garbage meta.json prior states");
     let r = reference();
     ctx.put("query_set", json!(r.queries));
